@@ -39,10 +39,10 @@ template <class V> inline std::string pairstr (const typename Shape<V>::Box& a, 
 }
 
 template <class V, class G, class BV, class GV>
-typename std::enable_if<std::is_arithmetic<V>::value>::type majoraxis_part (const BV&, const GV&, const std::vector<uint8_t>&, long long&) {}
+typename std::enable_if<is_scalar_elem<V>::value>::type majoraxis_part (const BV&, const GV&, const std::vector<uint8_t>&, long long&) {}
 
 template <class V, class G, class BV, class GV>
-typename std::enable_if<!std::is_arithmetic<V>::value>::type
+typename std::enable_if<!is_scalar_elem<V>::value>::type
 majoraxis_part (const BV& box, const GV& gbox, const std::vector<uint8_t>& empty, long long& trans)
 {
     typedef Lat<V> L; typedef Shape<V> S;
@@ -181,6 +181,7 @@ template <class V, class G> bool sets_one (bool thorough)
     R.cls ("box.inverted", n_inv); R.cls ("box.flat", n_flat); R.cls ("box.single-point", n_point); R.cls ("box.with-volume", n_vol);
     R.add ("states", (long long) (NB + NP));
     R.add ("evaluations", (long long) (NB * NP));
+    if (is_half<T>::value) R.cls ("half.sets.membership-queries", (long long) (NB * NP));
 
     // ---- box-box intersection, all ordered pairs --------------------------------------------------
     std::vector<uint32_t> sel;
@@ -249,11 +250,12 @@ template <class V, class G> bool sets_one (bool thorough)
     R.cls ("pair.overlap", c_overlap); R.cls ("pair.disjoint.generic", c_disj);
     R.add ("evaluations", c_pairs.load ());
     R.add ("box_pairs", c_pairs.load ());
+    if (is_half<T>::value) R.cls ("half.sets.box-pairs", c_pairs.load ());
     trans += c_trans.load ();
 
     // ---- canonical empty / infinite ---------------------------------------------------------------
     {
-        std::vector<T> E = {std::numeric_limits<T>::lowest (), (T) -1, (T) 0, (T) 1, std::numeric_limits<T>::max ()};
+        std::vector<T> E = {ElemLimits<T>::lowest (), (T) -1, (T) 0, (T) 1, ElemLimits<T>::max ()};
         if (!std::is_integral<T>::value) { E.push_back (std::numeric_limits<T>::denorm_min ()); E.push_back ((T) -std::numeric_limits<T>::denorm_min ()); }
         const int one[4] = {1, 1, 1, 1}, two[4] = {2, 2, 2, 2};
         B dflt; B me (mkpt<V> (one), mkpt<V> (two)); me.makeEmpty ();
